@@ -63,22 +63,62 @@ def coq_sources():
     return sorted(p for p in COQ.rglob('*.v') if 'generated' not in p.parts)
 
 
-def build_coq(jobs=16, timeout=3000):
-    '''Full (.vo) incremental build of the whole development.'''
+def prop_closure(prop_id):
+    '''Source files the property's theorems and executable model depend on:
+    coq/<ID>/*.v, Properties/<ID>.v and, transitively, every T4V file they
+    Require.  Falls back to the whole development when a Require cannot be
+    resolved (fail closed).'''
+    allsrc = {str(p.relative_to(COQ))[:-2].replace('/', '.'): p
+              for p in coq_sources()}
+    todo = [p for p in coq_sources()
+            if p.parent.name == prop_id
+            or (p.parent.name == 'Properties' and p.stem == prop_id)]
+    seen = {}
+    while todo:
+        path = todo.pop()
+        if path in seen:
+            continue
+        seen[path] = True
+        text = re.sub(r'\(\*.*?\*\)', ' ', path.read_text(), flags=re.S)
+        dirs = {k.split('.')[0] for k in allsrc}
+        for m in re.finditer(r'(?:From\s+(\S+)\s+)?Require\s+(?:Import\s+|'
+                             r'Export\s+)?(.*?)\.(?=\s|$)', text, flags=re.S):
+            root = m.group(1)
+            for tok in m.group(2).split():
+                name = tok[4:] if tok.startswith('T4V.') else tok
+                if root not in (None, 'T4V') and not tok.startswith('T4V.'):
+                    continue
+                if name in allsrc:
+                    todo.append(allsrc[name])
+                elif tok.startswith('T4V.') or (root == 'T4V') \
+                        or name.split('.')[0] in dirs:
+                    return coq_sources()
+    return sorted(seen)
+
+
+def build_coq(jobs=16, timeout=3000, prop_id=None):
+    '''Full (.vo) incremental build.  With prop_id: only that property's
+    files and everything they depend on (make resolves the dependencies), so
+    a broken proof of another property cannot mask or break this one.'''
     files = [str(p.relative_to(COQ)) for p in coq_sources()]
     rc, out = sh(['coq_makefile', '-f', '_CoqProject', '-o', 'Makefile']
                  + files, 120, cwd=COQ)
     if rc != 0:
         return False, out
-    rc, out = sh(['make', f'-j{jobs}'], timeout, cwd=COQ)
+    targets = []
+    if prop_id:
+        targets = [f[:-2] + '.vo' for f in files
+                   if f.startswith(prop_id + '/')
+                   or f == f'Properties/{prop_id}.v']
+    rc, out = sh(['make', f'-j{jobs}'] + targets, timeout, cwd=COQ)
     return rc == 0, out
 
 
-def hygiene():
-    '''Forbidden vernacular anywhere in the development (comments are
-    stripped first).'''
+def hygiene(prop_id=None):
+    '''Forbidden vernacular anywhere in the files the property depends on
+    (comments are stripped first).'''
     hits = []
-    for path in coq_sources():
+    for path in (prop_closure(prop_id) if prop_id else coq_sources()):
         text = path.read_text()
         text = re.sub(r'\(\*.*?\*\)', lambda m: ' ' * len(m.group(0)), text,
                       flags=re.S)
